@@ -111,7 +111,11 @@ func (n *memoryStoreNode) findNewest() *memoryStoreNode {
 	known := n
 	for _, child := range n.children {
 		cl := child.findNewest()
-		if cl.version > known.version {
+		if cl.wire == nil {
+			continue // nothing stored below this child
+		}
+		// version 0 (immutable objects) is a valid version too
+		if known.wire == nil || cl.version > known.version {
 			known = cl
 		}
 	}
